@@ -526,6 +526,33 @@ fn def_method_impl(
                         quote!()
                     };
 
+                    // `self` has been moved into the surrogate at this point,
+                    // so the unmock function is called with that instead.
+                    let unmock_input_eval_arm = attr.get_unmock_fn(index).map(
+                        |UnmockFn {
+                             path: unmock_path,
+                             params: unmock_params,
+                         }| {
+                            let unmock_expr = match unmock_params {
+                                None => quote! {
+                                    #unmock_path(__self, #fn_params) #opt_dot_await
+                                },
+                                Some(UnmockFnParams { params }) => {
+                                    let params = replace_self_with_surrogate(quote! { #params });
+                                    quote! {
+                                        #unmock_path(#params) #opt_dot_await
+                                    }
+                                }
+                            };
+
+                            quote! {
+                                #prefix::private::Continuation::Unmock => {
+                                    #unmock_expr
+                                }
+                            }
+                        },
+                    );
+
                     quote! {
                         let (__cont, #eval_pattern_all) = #prefix::polonius::_polonius!(|#self_ref| -> #polonius_return_type {
                             match #prefix::private::eval::<#mock_fn_path #eval_generic_args>(#self_ref, #inputs_eval_params) {
@@ -537,6 +564,7 @@ fn def_method_impl(
                             #prefix::private::Continuation::Answer(__answer_fn) => {
                                 __answer_fn(__self, #fn_params)
                             }
+                            #unmock_input_eval_arm
                             #default_impl_input_eval_arm
                             cont => cont.report(__self)
                         }
@@ -658,6 +686,27 @@ fn def_method_impl(
             #body
         }
     }
+}
+
+/// Replace `self` tokens with the `__self` surrogate used for `&mut self`/`Pin<&mut Self>` receivers.
+fn replace_self_with_surrogate(tokens: proc_macro2::TokenStream) -> proc_macro2::TokenStream {
+    tokens
+        .into_iter()
+        .map(|tree| match tree {
+            proc_macro2::TokenTree::Ident(ident) if ident == "self" => {
+                proc_macro2::TokenTree::Ident(proc_macro2::Ident::new("__self", ident.span()))
+            }
+            proc_macro2::TokenTree::Group(group) => {
+                let mut new_group = proc_macro2::Group::new(
+                    group.delimiter(),
+                    replace_self_with_surrogate(group.stream()),
+                );
+                new_group.set_span(group.span());
+                proc_macro2::TokenTree::Group(new_group)
+            }
+            other => other,
+        })
+        .collect()
 }
 
 fn prefix_with_span(prefix: &syn::Path, span: proc_macro2::Span) -> syn::Path {
